@@ -2,6 +2,7 @@ package main
 
 import (
 	"fmt"
+	"sync"
 	"math/big"
 	"sort"
 	"strings"
@@ -678,8 +679,11 @@ func opName(op string) string {
 }
 
 var strlits = map[string]string{}
+var strlitMu sync.Mutex
 
 func strlitName(s string) string {
+	strlitMu.Lock()
+	defer strlitMu.Unlock()
 	if n, ok := strlits[s]; ok {
 		return n
 	}
